@@ -940,6 +940,20 @@ func After(d time.Duration) <-chan time.Time {
 
 func Tick(d time.Duration) <-chan time.Time { return NewTicker(d).C }
 
+// AfterFunc runs f in its own thread once the timer fires (never, if it is stopped first).
+func AfterFunc(d time.Duration, f func()) *Timer {
+	s, _ := cur()
+	if s == nil {
+		return &Timer{rt: time.AfterFunc(d, f)}
+	}
+	tm := s.addTimer(d, 0)
+	GoN("afterfunc", func() {
+		Recv[time.Time](tm.ch)
+		f()
+	})
+	return &Timer{tm: tm}
+}
+
 func Sleep(d time.Duration) {
 	if S == nil {
 		time.Sleep(d)
